@@ -235,6 +235,42 @@ int main(int argc, char **argv)
             at = *progress + 1;
         }
     });
+    // dense size sweep (chunk arithmetic must transfer exactly `size` elements whatever the split): every size in
+    // [41, 18432] and around the integer constants of the library source, team arguments 7 and 13
+    {
+        std::set<u64> sw;
+        for (u64 z = 41; z <= 18432; z++) sw.insert(z);
+        for (u64 L : culist(args.kv, "lits"))
+            for (u64 m : {1ULL, 2ULL})
+                for (long long d = -70; d <= 70; d++) { long long v = (long long)(L * m) + d; if (v > 40 && v <= 2200000) sw.insert((u64)v); }
+        std::vector<u64> sv(sw.begin(), sw.end());
+        const long NCH = 48;
+        fork_pool(NCH, std::min(args.jobs, 4), [&](long ch) {
+            static char *mine = 0;
+            if (!mine) mine = (char *)mmap(0, 4096, PROT_READ | PROT_WRITE, MAP_SHARED | MAP_ANONYMOUS, -1, 0);
+            g_cur = mine;
+            g_cur[0] = 0;
+            Iso r = isolated([&]() {
+                Cnt cnt;
+                for (size_t i = (size_t)ch; i < sv.size(); i += NCH)
+                    for (int fn = 0; fn < 2; fn++)
+                        for (int nt : {7, 13})
+                        {
+                            std::string cur = casestr(fn, sv[i], nt);
+                            strncpy(g_cur, cur.c_str(), 2000);
+                            std::string f = run_case(fn, sv[i], nt, &cnt);
+                            if (!f.empty()) emit(fn, sv[i], nt, f);
+                        }
+                const char *pre = EXACT ? "asan_" : "";
+                rep().stat(std::string(pre) + "states", cnt.cases);
+                rep().stat(std::string(pre) + "transitions", cnt.cases);
+                rep().stat(std::string(pre) + "evaluations", cnt.evals);
+                if (!EXACT) rep().stat("distinct_nontrivial", cnt.nontriv);
+                rep().flush();
+            }, 600);
+            if (r.kind != 0) { report_abnormal(r, g_cur); rep().flush(); }
+        });
+    }
     rep().flush();
     return 0;
 }
